@@ -413,6 +413,46 @@ def make_ldap_response(rng):
     return bytes(LDAPExtendedResponseStartTLS(rng.choice(list(LDAPResultCode))).compose())
 
 
+def _ber_reencode(data, rng, indefinite=False, depth=0):
+    """Re-encode one DER TLV (recursively for constructed types) with other valid BER length forms:
+    non-minimal long-form lengths (0x81.., 0x82.., 0x84..) and, on request, the indefinite form."""
+    tag = data[0]
+    first = data[1]
+    if first < 0x80:
+        header, length = 2, first
+    else:
+        count = first & 0x7f
+        header, length = 2 + count, int.from_bytes(data[2:2 + count], 'big')
+    content = data[header:header + length]
+    rest = data[header + length:]
+    if tag & 0x20 and depth < 4:      # constructed: re-encode the members too
+        members = b''
+        inner = content
+        while inner:
+            one, inner = _ber_reencode(inner, rng, indefinite, depth + 1)
+            members += one
+        content = members
+    if indefinite and tag & 0x20 and rng.random() < 0.6:
+        return bytes((tag, 0x80)) + content + b'\x00\x00', rest
+    form = rng.choice((0, 0, 1, 2, 4)) if len(content) < 0x80 else rng.choice((1, 2, 4))
+    if len(content) >= 0x100 and form == 1:
+        form = 2
+    if form == 0:
+        encoded = bytes((tag, len(content)))
+    else:
+        encoded = bytes((tag, 0x80 | form)) + len(content).to_bytes(form, 'big')
+    return encoded + content, rest
+
+
+def make_ldap_ber(indefinite=False):
+    def make(rng):
+        der = make_ldap_response(rng) if rng.random() < 0.6 else make_ldap_request(rng)
+        encoded, rest = _ber_reencode(der, rng, indefinite)
+        assert not rest
+        return encoded
+    return make
+
+
 def make_pg_sslrequest(rng):  # pylint: disable=unused-argument
     from cryptoparser.tls.postgresql import SslRequest
     return bytes(SslRequest().compose())
@@ -484,6 +524,8 @@ CHANNELS = [
     Channel('openvpn_tcp', P_ + 'tls.openvpn.OpenVpnPacketWrapperTcp', 'openvpn_tcp', make_openvpn_tcp),
     Channel('ldap_request', P_ + 'tls.ldap.LDAPExtendedRequestStartTLS', 'ldap', make_ldap_request),
     Channel('ldap_response', P_ + 'tls.ldap.LDAPExtendedResponseStartTLS', 'ldap', make_ldap_response),
+    Channel('ldap_response_ber_long_lengths', P_ + 'tls.ldap.LDAPExtendedResponseStartTLS', 'ldap',
+            lambda rng: _ber_reencode(make_ldap_response(rng), rng)[0], spec_sender=True),
     Channel('pg_sslrequest', P_ + 'tls.postgresql.SslRequest', 'pg_sslrequest', make_pg_sslrequest),
     Channel('pg_sync', P_ + 'tls.postgresql.Sync', 'pg_sync', make_pg_sync),
     Channel('ssh_banner', P_ + 'ssh.subprotocol.SshProtocolMessage', 'ssh_banner', make_ssh_banner, in_c04=False),
